@@ -4,7 +4,7 @@ in a `thread_local!` or in a static with interior mutability makes the result de
 in another object of the same type). Scope per property: the files its mechanism is anchored in (properties.jsonl) plus the shared helper
 files. Init-once statics of immutable values (LazyLock<Regex>) are not flagged."""
 import json
-from analysis.engine import rule
+from analysis.engine import rule, AnchorMissing
 from rules.common import no_hidden_state
 
 SHARED = ['src/unicode.rs', 'src/utils.rs', 'src/text.rs']
@@ -82,6 +82,25 @@ def bulk_skip_accounted(ctx, files):
                                  'against its index' % (norm_path_(b.path), (t.callee_res() or '').rsplit('::', 2)[-1], t.span['line'],
                                                         (c.callee_res() or '').rsplit('::', 1)[-1], c.span['line']), c.span)
                         break
+        # a whole source skipped by its RECORDED length (`n -= self.lengths[idx]; idx += 1`): the length counts all items of the source, also the ones
+        # it has already yielded -- right on a fresh generator, too much as soon as the source was entered (skip / step_by call nth on a running one)
+        from analysis.sym import symbolizer, simplify, walk
+        z = symbolizer(b)
+        for s_ in b.stmts():
+            if s_.kind != 'assign':
+                continue
+            try:
+                v_ = simplify(z.rvalue(s_.rv, 0, ()))
+            except Exception:
+                continue
+            c_ = core(v_)
+            if c_[0] == 'bin' and c_[1] == 'Sub' and any(isinstance(x, tuple) and x and x[0] == 'field' and x[2] == 'lengths' for x in walk(c_[3])) and \
+                    any(isinstance(x, tuple) and x and x[0] == 'arg' and x[1] == 2 for x in walk(c_[2])):
+                ctx.fail(b, 'skip-by-recorded-length|' + norm_path_(b.path).rsplit('::', 1)[-1],
+                         '%s: the count to skip is reduced by the recorded length of a source (line %d) and the source is passed over: the recorded length also counts '
+                         'the items the source has already yielded, so on a generator that is under way nth(n) skips too few items of the following sources' % (
+                             norm_path_(b.path), s_.span['line']), s_.span)
+                break
     return n_over
 
 
@@ -140,7 +159,20 @@ def truncating_exits(ctx, files):
                 on_item = any(any(isinstance(x, tuple) and nosite(x) == item for x in walk(g.t)) for g in gs)
                 # a worker that stops because its channel was closed (the consumer is gone) is not a truncation
                 on_send = any(any(isinstance(x, tuple) and x and x[0] == 'call' and re_.search(r'mpsc::(Sync)?Sender::(send|try_send)$', x[1]) for x in walk(g.t)) for g in gs)
-                if on_item or on_send or not gs:
+                # ... also when the outcome of the send is carried in a flag (`receiver_open = tx.send(x).is_ok()`)
+                if not on_send:
+                    from rules.common import local_defs as _ld
+                    for g in gs:
+                        for x in walk(g.t):
+                            if isinstance(x, tuple) and x and x[0] in ('var', 'phi'):
+                                loc = x[2] if x[0] == 'var' and len(x) > 2 else (x[1] if x[0] == 'phi' else None)
+                                if isinstance(loc, int) and 'bool' in (b.local_ty(loc) or ''):
+                                    for s_, v_ in _ld(b, loc):
+                                        if any(isinstance(y, tuple) and y and y[0] == 'call' and re_.search(r'mpsc::(Sync)?Sender::(send|try_send)$', y[1]) for y in walk(v_)):
+                                            on_send = True
+                # the prefetch buffer of the batcher is full (the items stay in the source for the next call): reviewed, wherever the fill loop lives
+                prefetch = any(any(isinstance(x, tuple) and x and x[0] == 'call' and x[1].endswith('BatchLimit::limit') for x in walk(g.t)) for g in gs)
+                if on_item or on_send or prefetch or not gs:
                     continue
                 key = norm_path_(b.root if b.kind == 'Closure' and getattr(b, 'root', None) else b.path)
                 if norm_path_(b.path) in REVIEWED_EARLY_EXITS or key in REVIEWED_EARLY_EXITS:
@@ -166,3 +198,52 @@ def _mk3(pid, files):
 
 for _pid, _files_ in _files().items():
     _mk3(_pid, _files_)
+
+
+# --------------------------------------------------------------------------------------------------------------------------------
+# The line reader under every file-backed source: LossyUtf8Lines::next ends the stream (None) only when read_until read 0 bytes. A
+# `None` on any other condition (an empty line after stripping the newline) makes a blank line in the middle of a file look like its
+# end: the generator marks the source finished and the rest of the file is never yielded.
+def line_reader_ends_at_eof_only(ctx):
+    from analysis.sym import sym, core, peel, nosite, ret_values, guards_at
+    from analysis.pat import match, Call, ANY, Const
+    cands = [b for b in ctx.facts.bodies if b.kind != 'Closure' and b.path.endswith('::next') and 'LossyUtf8Lines' in str(b.impl_self)]
+    if len(cands) != 1:
+        raise AnchorMissing('Iterator::next of data::loading::LossyUtf8Lines (found %d)' % len(cands))
+    b = cands[0]
+    rd = [t for t in b.calls(r'BufRead::read_until$|BufRead::read_line$')]
+    if len(rd) != 1:
+        raise AnchorMissing('LossyUtf8Lines::next: the read_until call (found %d)' % len(rd))
+    res = nosite(sym(b, rd[0].dest))
+    n = 0
+    for v, blk in ret_values(b):
+        pv = peel(v)
+        if not (pv[0] == 'agg' and pv[1] == 'adt' and pv[2].endswith('Option::None')):
+            continue
+        n += 1
+        # the guards of the block: Ok variant of the read result and its payload == 0
+        zero = False
+        for g in guards_at(b, blk):
+            if g.t[0] == 'discr':
+                continue
+            c = core(g.t)
+            if nosite(c) == nosite(core(('unwrap', res))) and g.values == {0}:
+                zero = True
+            t_, pol_ = g.atom()
+            if pol_ is True and match(core(t_), ('bin', 'Eq', ANY, Const(0))) and nosite(core(core(t_)[2])) == nosite(core(('unwrap', res))):
+                zero = True
+        ctx.require(zero, b, 'eof-only', 'the line reader returns None only after read_until read 0 bytes (end of file)',
+                    'LossyUtf8Lines::next returns None (line %d) on a path where read_until did not report 0 bytes: a blank or unusual line in the middle of a file ends the '
+                    'source, the items behind it are never yielded' % b.blocks[blk].term.span['line'], b.blocks[blk].term.span)
+    if n == 0:
+        raise AnchorMissing('LossyUtf8Lines::next: a None result')
+
+
+for _pid in ('C07', 'C08'):
+    def _mk4(pid):
+        @rule(pid, 'R-%s-EOF' % pid, 'T3 LOOP-EXIT (a source ends at its end of file only)',
+              'LossyUtf8Lines::next, the line reader under every jsonl source, returns None only when read_until read 0 bytes')
+        def r(ctx):
+            line_reader_ends_at_eof_only(ctx)
+        return r
+    _mk4(_pid)
